@@ -393,7 +393,9 @@ class Framer(tasking.Tasker):
            use store.stamp for current time reference
         """
         try:
-            self.elapsed = self.store.stamp - self.stamp
+            # round off float noise such as 0.4 - 0.3 = 0.10000000000000003 so that
+            # elapsed compares exactly against decimal literals like timeout 0.1
+            self.elapsed = round(self.store.stamp - self.stamp, 9)
         except TypeError: #one or both stamps are not numbers
             self.stamp = self.store.stamp #makes self.stamp a number once store.stamp is
             self.elapsed = 0.0 #elapsed zero until both numbers
